@@ -54,7 +54,17 @@ def comment_regions(text):
         if ch == "/" and i + 1 < n and text[i + 1] == "*":
             j = text.find("*/", i + 2)
             j = n if j < 0 else j + 2
-            # the rest of the line after the C comment may hold more comments: take to end of line
+            # further C comments written directly behind this one (each may span lines) belong to the same region
+            while True:
+                m = j
+                while m < n and text[m] in " \t":
+                    m += 1
+                if text.startswith("/*", m):
+                    j2 = text.find("*/", m + 2)
+                    j = n if j2 < 0 else j2 + 2
+                else:
+                    break
+            # the rest of the line after the C comment(s) may hold more comments: take to end of line
             k = text.find("\n", j)
             k = n if k < 0 else k
             out.append((line, text[i:k].strip()))
@@ -141,9 +151,11 @@ def gen_commented(ctx, n):
                 in_kv -= 1
             if rng.random() < .25:
                 k += 1
-                c = rng.choice([f"# note {k} {i}", f"/* block {k} {i} */", f"#n{k}-{i} with 'quotes' \"x\""])
+                c = rng.choice([f"# note {k} {i}", f"/* block {k} {i} */", f"#n{k}-{i} with 'quotes' \"x\"",
+                                f"/* table {k} {i}\n      scale     size\n      < 1:100     {k}  \n   */",
+                                f"/* {k}-{i} first line,\n\t  second line */"])
                 res.append(" " * rng.randint(0, 4) + c)
-                if kind == "opener":
+                if kind == "opener" and "\n" not in c:      # (a comment that spans lines is checked by the verbatim oracle only)
                     claims.append((c, "above", first))
             if rng.random() < .45:
                 k += 1
@@ -182,6 +194,8 @@ def explore(ctx, scale=1.0):
         docs = rng.sample(docs, min(len(docs), int(100 * scale)))
     docs += gen_commented(ctx, int((4000 if ctx.thorough else 400) * scale))
     rng.shuffle(docs)
+    # the minimal input of the recorded finding eol-join:multiline-c-after-hash, probed on every run
+    docs.insert(0, ('LAYER\n  # first\n  /* a\n     b */\n  NAME "x"\nEND', []))
     P = trees.parser(True, False)           # ONE parser object for every document (the batch pattern)
     areqs, akeep, treqs, tkeep = [], [], [], []
     for idx, (text, claims) in enumerate(docs):
@@ -212,6 +226,11 @@ def explore(ctx, scale=1.0):
                         ctx.violation("reused-parser-differs", "a reused Parser object gives another dictionary / other comments than loads", {"text": text})
                         continue
             except Exception as ex:
+                try:
+                    MapfileToDict().transform(trees.parser(False, False).parse(text))
+                except Exception:
+                    ctx.count(f"{kind}:does not load without comments either ({type(ex).__name__}) — C19 territory")
+                    break
                 ctx.violation(f"load-raises:{type(ex).__name__}", f"loading with include_comments raises {type(ex).__name__}", {"text": text, "include_position": pos})
                 continue
             ctx.case((text, pos), bool(atoms), sample={"text": text[:200]} if rng.random() < .004 else None)
@@ -224,6 +243,21 @@ def explore(ctx, scale=1.0):
                 plain = mappyfile.dumps(MapfileToDict().transform(trees.parser(False, False).parse(text)))
             except Exception as ex:
                 ctx.count(f"dumps fails ({type(ex).__name__}) — C03/C19 territory"); continue
+            # ---- recorded defect: a multi-line /* */ comment joined behind a # comment on a keyword's line ----
+            multi = [a for a in atoms if a.startswith("/*") and "\n" in a]
+            hashes = [a for a in atoms if a.startswith("#")]
+            hit = None
+            for ln in out.split("\n"):
+                for a in multi:
+                    first = a.split("\n")[0].rstrip()
+                    if ln.endswith(" " + first):
+                        head = ln[:len(ln) - len(first)]
+                        if any((" " + h + " ") in head for h in hashes):
+                            hit = (ln.strip(), a)
+            if hit:
+                ctx.violation("eol-join:multiline-c-after-hash", f"the comments {hit[0]!r} … are written on one keyword line: the # comment swallows the opening of the "
+                              "multi-line /* */ comment, whose continuation lines are then outside any comment (the output does not load)", dict(rep, printed=out[:3000]))
+                continue
             # ---- verbatim + no duplication ----
             used = collections.Counter()
             bad = None
@@ -261,7 +295,12 @@ def explore(ctx, scale=1.0):
                         break
                     j = hits[0]
                     if where == "eol":
-                        w = olines[j].split()
+                        # the physical line may be the last line of a multi-line /* */ comment written earlier on the keyword's line
+                        start = j
+                        for a, region in comment_regions(out):
+                            if a < j <= a + region.count("\n") and "*/" in region:
+                                start = a
+                        w = olines[start].split()
                         if not w or w[0].upper() != first or not olines[j].rstrip().endswith(c):
                             ctx.violation("placement:eol", f"comment {c!r} written at the end of the {first} line is printed on line {olines[j].strip()[:60]!r}", dict(rep, printed=out[:3000]))
                             break
